@@ -371,6 +371,43 @@ def obligations(tier):
         add(f"memory_init_ctor[{'s' if s_ else 'u'}{w_}]", "init", f"MemoryData.Init([0, v]), shape {'signed' if s_ else 'unsigned'}({w_})",
             {"iv": iv}, [civ], run_mem_ctor, post_init)
 
+    # --- an initial value given as a constant EXPRESSION (Const of another shape, Cat, slice of a constant) is wrapped into the
+    #     target shape like the integer it denotes
+    for idx, ((tw, ts), (cw, cs)) in enumerate([((4, True), (4, False)), ((4, False), (4, True)), ((4, True), (6, False)), ((5, False), (3, True)),
+                                                ((3, True), (3, True)), ((1, True), (1, False)), ((8, True), (8, False)), ((6, False), (8, True))]):
+        cv = fresh(f"ce_{idx}", cw, cs)
+
+        def post_cinit(i, r, exc, tw=tw, ts=ts, cw=cw, cs=cs):
+            if exc is not None:
+                return False
+            return r == refsem.in_shape(i["cv"], tw, ts)
+
+        def run_cinit(cv, tw=tw, ts=ts, cw=cw, cs=cs):
+            return ast_mod._get_init_value(Const(cv, Shape(cw, cs)), Shape(tw, ts))
+        add(f"signal_init_const[{idx}]", "init", f"Signal({'s' if ts else 'u'}{tw}, init=Const(v, {'s' if cs else 'u'}{cw})).init", {"cv": cv}, [], run_cinit, post_cinit,
+            concrete=lambda cv, tw=tw, ts=ts, cw=cw, cs=cs: Signal(Shape(tw, ts), init=Const(cv, Shape(cw, cs))).init)
+
+        def post_uinit(i, r, exc, tw=tw, ts=ts, cw=cw, cs=cs):
+            if exc is not None:
+                return False
+            return r == refsem.in_shape(refsem.to_unsigned(i["cv"], cw), tw, ts)      # Cat / slices are unsigned values
+
+        def run_cat_init(cv, tw=tw, ts=ts, cw=cw, cs=cs):
+            k = Const(cv, Shape(cw, cs))
+            return ast_mod._get_init_value(Cat(k[:cw // 2], k[cw // 2:]), Shape(tw, ts))
+        add(f"signal_init_cat[{idx}]", "init", f"Signal({'s' if ts else 'u'}{tw}, init=Cat(low half, high half of Const(v, {'s' if cs else 'u'}{cw}))).init", {"cv": cv}, [],
+            run_cat_init, post_uinit)
+
+        def run_slice_init(cv, tw=tw, ts=ts, cw=cw, cs=cs):
+            return ast_mod._get_init_value(Const(cv, Shape(cw, cs))[0:cw], Shape(tw, ts))
+        add(f"signal_init_slice[{idx}]", "init", f"Signal({'s' if ts else 'u'}{tw}, init=Const(v, {'s' if cs else 'u'}{cw})[0:{cw}]).init", {"cv": cv}, [],
+            run_slice_init, post_uinit)
+
+        def run_mem_cinit(cv, tw=tw, ts=ts, cw=cw, cs=cs):
+            return MemoryData.Init([0, Const(cv, Shape(cw, cs))], shape=Shape(tw, ts), depth=2)._raw[1]
+        add(f"memory_init_const[{idx}]", "init", f"MemoryData.Init([0, Const(v, {'s' if cs else 'u'}{cw})]), shape {'s' if ts else 'u'}{tw}", {"cv": cv}, [],
+            run_mem_cinit, post_cinit)
+
     # --- Signal(range(...), init=v) raises exactly when v is outside the range
     for rg in [range(0, 10), range(-3, 4), range(2, 16, 3), range(5, -5, -2), range(0, 1), range(0, 0), range(-8, -2)]:
         x, cx = fresh_range("iv", -40, 40)
